@@ -35,7 +35,8 @@ def _merge_job(args):
         return {'class': cname, 'ok': True, 'findings': [finding_dict(f) for f in mf.findings.values()],
                 'sites': {k: sorted(v) for k, v in mf.sites.items()}, 'outcomes': mf.outcomes,
                 'notes': mf.notes, 'stats': mf.stats, 'functions': sorted(mf.functions_entered),
-                'summaries': {q: s.as_dict() for q, s in mf.summaries.items()}, 'wall': time.time() - t0}
+                'summaries': {q: s.as_dict() for q, s in mf.summaries.items()}, 'wall': time.time() - t0,
+                'guard_tags': sorted(mf.guard_tags)}
     except AnalysisError as e:
         return {'class': cname, 'ok': False, 'error': f'{cname}: {e}'}
     except RecursionError:
